@@ -82,7 +82,11 @@ func TestVerifBoundedC09Reader(t *testing.T) {
 					n1, e1 = io.ReadFull(dr, b1)
 					n2, e2 = io.ReadFull(br, b2)
 				} else {
-					n1, e1 = dr.CtxReadFull(ctx, b1)
+					// a per-call context, cancelled once the call has returned (as request
+					// contexts are): nothing later may depend on it
+					cctx, cancel := context.WithCancel(ctx)
+					n1, e1 = dr.CtxReadFull(cctx, b1)
+					cancel()
 					n2, e2 = io.ReadFull(br, b2)
 					if e2 == io.ErrUnexpectedEOF {
 						e2 = io.EOF // CtxReadFull reports a short read as EOF
